@@ -1106,5 +1106,10 @@ func (vc *VC) send(ins *ssa.Send) {
 }
 
 func (vc *VC) panicInstr(ins *ssa.Panic) {
+	if !ins.Pos().IsValid() {
+		// synthesized by the compiler's range-over-func lowering (iterator protocol misuse): not user code
+		vc.abstracted("synthetic range-over-func protocol panic")
+		return
+	}
 	vc.obligeSafety("panic", "false", ins.Pos())
 }
